@@ -7,20 +7,20 @@ Import ListNotations.
 
 Theorem login_end_to_end d tag fu fp u p b ens init :
   nsp tag = true -> tag <> [] ->
-  classify_login fu fp u p = None -> in_domain d u p = true ->
+  classify_login fu fp u p = None -> ensure_sound ens -> in_domain d u p = true ->
   imap_spec d u p (accepted b)
     (run_creds d (login_creds false true (login_line tag fu fp u p)) b ens init).
 Proof.
-  intros Nt Et C1 C2. rewrite (login_args_exact _ _ _ _ _ Nt Et C1). simpl run_creds.
+  intros Nt Et C1 ES C2. rewrite (login_args_exact _ _ _ _ _ Nt Et C1). simpl run_creds.
   now apply imap_attempt_spec.
 Qed.
 
 Theorem authplain_end_to_end d z u p b ens init :
   count_byte z NUL = 0 -> count_byte u NUL = 0 -> count_byte p NUL = 0 -> u <> [] -> p <> [] ->
-  in_domain d u p = true ->
+  ensure_sound ens -> in_domain d u p = true ->
   imap_spec d u p (accepted b)
     (run_creds d (authplain_creds false true (b64_encode (z ++ NUL :: u ++ NUL :: p) ++ crlf)) b ens init).
 Proof.
-  intros Hz Hu Hp Eu Ep C. rewrite (authplain_exact _ _ _ Hz Hu Hp Eu Ep). simpl run_creds.
+  intros Hz Hu Hp Eu Ep ES C. rewrite (authplain_exact _ _ _ Hz Hu Hp Eu Ep). simpl run_creds.
   now apply imap_attempt_spec.
 Qed.
